@@ -48,6 +48,7 @@ type arrival struct {
 }
 
 type thread struct {
+	byEvent bool // the last release was for an event of the trace
 	last   int // index of the trace event this goroutine was last released for
 	lib    bool
 	id     int
@@ -103,18 +104,21 @@ func register(id int) *thread {
 }
 
 // Point is called before every synchronisation operation.
-func Point(pos, kind string) {
+func Point(pos, kind string) { point(pos, kind) }
+
+// point reports whether the goroutine was released for an event of the trace (false: pass-through or free run).
+func point(pos, kind string) bool {
 	if !active {
-		return
+		return false
 	}
 	t := self()
 	if t == nil {
-		return // a goroutine the model does not know (none expected)
+		return false // a goroutine the model does not know (none expected)
 	}
 	mu.Lock()
 	if free {
 		mu.Unlock()
-		return
+		return false
 	}
 	mu.Unlock()
 	if kind == "load" || kind == "store" {
@@ -130,13 +134,18 @@ func Point(pos, kind string) {
 			}
 		}
 		if next >= 0 && (trace[next].Pos != pos || trace[next].Op != kind) {
-			return
+			return false
 		}
 		// next < 0: the trace has nothing more for this goroutine - it parks right before the plain access
 		// (that is where the model left it) and is released together with everything else at the end
 	}
 	arrivals <- arrival{tid: t.id, pos: pos, kind: kind}
 	<-t.grant
+	mu.Lock()
+	ev := t.byEvent
+	t.byEvent = false
+	mu.Unlock()
+	return ev
 }
 
 func Do0(pos, kind string, f func())                      { Point(pos, kind); f() }
@@ -173,9 +182,14 @@ func CondWait(pos string, c *sync.Cond) {
 		c.Wait()
 		return
 	}
-	Point(pos, "Cond.Wait(wake)")
+	if point(pos, "Cond.Wait(wake)") {
+		c.L.Lock()
+		return
+	}
+	// released because the controlled phase ended while the model still has this goroutine parked: from now
+	// on it waits on the real condition variable (only a real Broadcast/Signal after this point wakes it)
 	c.L.Lock()
-	// if we were released because the controlled phase ended, behave like the real Wait from now on
+	c.Wait()
 }
 
 // Spawn is called by the parent right before the go statement; Enter/Exit by the child.
@@ -409,6 +423,7 @@ func Run(file string, entry func()) {
 		mu.Lock()
 		t := threads[ev.T]
 		t.at = nil
+		t.byEvent = true
 		t.last = cursor
 		if ev.Op == "go" {
 			curSpawn = ev.Spawn
